@@ -34,7 +34,7 @@ def _net_cfg(profile: str, rng: random.Random) -> Dict[str, Any]:
         base.update(loss=rng.choice([0.0, 0.02]))
     elif profile == "mixed":
         base.update(loss=rng.choice([0.03, 0.1, 0.2]), dup=rng.choice([0.05, 0.2]), dup_max=0.5,
-                    lat_max=rng.choice([0.01, 0.08, 0.2]), slow_p=0.05, slow_max=2.0)
+                    lat_max=rng.choice([0.01, 0.08, 0.2]), slow_p=0.05, slow_max=2.0, send_error_p=rng.choice([0.0, 0.05]))
     elif profile == "stall":
         base.update(loss=rng.choice([0.0, 0.05]))
     return base
